@@ -169,6 +169,15 @@ impl Default for GenOpts {
     }
 }
 
+/// The table a statement works on (None: unknown / not table-bound).
+pub fn stmt_table(s: &Stmt) -> Option<String> {
+    match s {
+        Stmt::CreateTable(d) => Some(d.name.clone()),
+        Stmt::DropTable { table } | Stmt::CreateUniqueIndex { table, .. } | Stmt::Insert { table, .. } | Stmt::Update { table, .. } | Stmt::Delete { table, .. } | Stmt::Select { table, .. } | Stmt::AddColumn { table, .. } | Stmt::DropColumn { table, .. } | Stmt::AlterCol { table, .. } => Some(table.clone()),
+        Stmt::NoOpDdl { .. } | Stmt::Bad { .. } => None,
+    }
+}
+
 pub fn gen_aval(big: bool) -> BoxedStrategy<AVal> {
     if big {
         prop_oneof![2 => Just(AVal::Null), 10 => (0u8..12).prop_map(AVal::Pool), 1 => (0u16..2000).prop_map(AVal::Big)].boxed()
@@ -969,6 +978,9 @@ impl Interp {
     fn skip_if_excluded(&mut self, tags: &[String]) -> bool {
         for t in tags {
             if self.excluded.contains_key(t) {
+                if self.verbose {
+                    eprintln!("  (step skipped: {t})");
+                }
                 self.skipped.push(t.clone());
                 return true;
             }
@@ -1163,7 +1175,18 @@ impl Interp {
                     if tags.iter().any(|t| t.starts_with("ddl.")) {
                         tags.push("ddl.concurrent".into());
                     }
-                    if self.txns.values().any(|t| t.effects.iter().any(|e| matches!(e, Effect::Create(_) | Effect::Drop(_) | Effect::AddUnique { .. } | Effect::AddColumn { .. } | Effect::DropColumn { .. } | Effect::AlterCol { .. }))) {
+                    // an open transaction changed the schema of the table this statement works on (or this is DDL)
+                    let mine = stmt_table(&s);
+                    let ddl_table = |e: &Effect| -> Option<String> {
+                        match e {
+                            Effect::Create(d) => Some(d.name.clone()),
+                            Effect::Drop(t) => Some(t.clone()),
+                            Effect::AddUnique { table, .. } | Effect::AddColumn { table, .. } | Effect::DropColumn { table, .. } | Effect::AlterCol { table, .. } => Some(table.clone()),
+                            _ => None,
+                        }
+                    };
+                    let is_ddl = tags.iter().any(|t| t.starts_with("ddl."));
+                    if self.txns.values().any(|t| t.effects.iter().filter_map(ddl_table).any(|tb| is_ddl || mine.is_none() || mine.as_deref() == Some(tb.as_str()))) {
                         tags.push("stmt.while_uncommitted_ddl_open".into());
                     }
                     if let Stmt::Insert { table, .. } = &s {
@@ -1315,6 +1338,22 @@ impl Interp {
                         if tb.rows.iter().any(|(id, r)| self.updated_rows.contains(&(table.clone(), *id)) && pred.eval(r) == Some(true)) {
                             tags.push("txn.delete_of_updated_row_in_session".into());
                         }
+                    }
+                }
+                {
+                    // another open transaction changed the schema of the table this statement works on
+                    let mine = stmt_table(&stmt);
+                    let is_ddl = tags.iter().any(|t| t.starts_with("ddl."));
+                    let hit = self.txns.iter().filter(|(k, _)| *k != s).any(|(_, t)| {
+                        t.effects.iter().any(|e| match e {
+                            Effect::Create(d) => is_ddl || mine.is_none() || mine.as_deref() == Some(d.name.as_str()),
+                            Effect::Drop(tb) => is_ddl || mine.is_none() || mine.as_deref() == Some(tb.as_str()),
+                            Effect::AddUnique { table, .. } | Effect::AddColumn { table, .. } | Effect::DropColumn { table, .. } | Effect::AlterCol { table, .. } => is_ddl || mine.is_none() || mine.as_deref() == Some(table.as_str()),
+                            _ => false,
+                        })
+                    });
+                    if hit {
+                        tags.push("stmt.while_uncommitted_ddl_open".into());
                     }
                 }
                 if (self.txns.len() > 1 || self.model.epoch > txn.begin_epoch) && tags.iter().any(|t| t.starts_with("ddl.")) {
